@@ -276,6 +276,7 @@ class Check(PropertyCheck):
                   "for any time-zone skew of the naive clock; offsets regenerated from certs.py), plan_wellformed (serverAuth EKU, SAN critical iff "
                   "no CN, CN only with 0<len<64 and equal to the first name, SANs distinct), upstream_never_blocks (no upstream name makes get_cert "
                   "raise); added in round 3: sources_all_named (nothing is dropped: the SAN set IS the source set — a host below an upstream wildcard stays), "
+                  "leaf_names_all_sources (no cap: every source name is a SAN of the leaf however long the upstream list; tied on upstream lists of up to 300 names), "
                   "sans_in_source_order (SANs = source list minus later repetitions, same head), matches_requested_openssl (C15's transcription of OpenSSL's host "
                   "check accepts the leaf for the requested name too), valid_throughout (valid from issue until expiry-2d-14h for any zone skew). Model tied to the code by comparing the model's field plan with the parsed real certificate; independently every real "
                   "certificate is verified by cryptography.x509.verification as a server certificate for the requested SNI/IP.")
